@@ -70,6 +70,8 @@ func writeAbstractWriter(w *formatting.IndentedWriter, p *dsl.ProtocolDefinition
 					w.WriteStringln("try:")
 					w.Indented(func() {
 						w.WriteStringln("self._end_stream()")
+						// every step is completed now: a second close() must not end the stream again
+						fmt.Fprintf(w, "self._state = %d\n", len(p.Sequence)*2)
 						w.WriteStringln("return")
 					})
 					w.WriteStringln("finally:")
